@@ -538,10 +538,17 @@ fn gen_params(w: &mut Rng) -> ParamSpec {
         }
     };
     let off = |w: &mut Rng| -> f64 {
-        match w.below(6) {
+        match w.below(10) {
             0 | 1 => 0.0,
             2 => (*w.pick(&[-180.0f64, -90.0, 90.0, 180.0, 45.0])).to_radians(),
+            // on the print lattice of deg({:.4})
             3 => ((w.range_usize(0, 3_600_000) as f64) / 10_000.0 - 180.0).to_radians(),
+            // integral number of radians (written as an integer by the integer variant)
+            4 => *w.pick(&[1.0, -1.0, 2.0, -2.0, 3.0, -3.0]),
+            // tiny but non-zero: around and below the printed precision
+            5 => w.range_f64(1e-7, 2e-4) * if w.chance(0.5) { 1.0 } else { -1.0 },
+            // just either side of a rounding boundary of the fourth printed decimal
+            6 => ((w.range_usize(0, 3_600_000) as f64 + 0.5 + w.range_f64(-0.02, 0.02)) / 10_000.0 - 180.0).to_radians(),
             _ => w.range_f64(-3.2, 3.2),
         }
     };
